@@ -145,6 +145,9 @@ def box_selectors(rng, nb):
            {"t": "mask", "v": [True] * nb}, {"t": "mask", "v": [False] * nb},
            {"t": "lmask", "v": [i % 2 == 0 for i in range(nb)]}, {"t": "lmask", "v": [i % 3 != 1 for i in range(nb)]}]
     if nb > 2:
+        # orders that are not their own inverse (a cyclic shift, a shift by two), with and without a box named twice
+        out += [{"t": "list", "v": list(range(1, nb)) + [0]}, {"t": "ndarray", "v": list(range(2, nb)) + [0, 1]},
+                {"t": "list", "v": [nb - 1, 0, 1][:nb]}, {"t": "list", "v": [1, 0, 1]}, {"t": "list", "v": [-1, 1, 0]}]
         p = list(range(nb)); rng.shuffle(p)
         out.append({"t": "list", "v": p[: max(1, nb // 2)]})
         out.append({"t": "int", "v": rng.randrange(nb)})
